@@ -318,3 +318,57 @@ Proof.
   split; [exact C10_example_filter_premise|]. intros ff Hff _. rewrite C10_example_filter_result in Hff.
   inversion Hff; subst ff. vm_compute. reflexivity.
 Qed.
+
+(* ====================================================================================================
+   Wave 3.  QFrame.Eval on a frame WITHOUT Err (Proofs/EvalNoPanic.v).
+   ==================================================================================================== *)
+From QF Require Import Proofs.EvalNoPanic.
+
+(* Eval preserves well-formedness for EVERY tree (valid or not), context, destination and frame: the statement
+   that was only a Definition above is a theorem, without any premise beyond the one it names *)
+Theorem C10_wf_eval : C10_eval_full_statement.
+Proof. exact (fun ut cx f dst e g => wf_eval ut cx f dst e g). Qed.
+Print Assumptions C10_wf_eval.
+
+(* Eval never reaches Panic and returns a well-formed frame.  Premises (eval_premises_b, one decidable boolean):
+   the frame is well formed, has no Err, pairwise different non-empty column names and, together with the
+   temporaries the tree needs at the same time (temps_needed), at most 10000 columns - tempColName really panics
+   beyond that; the context functions are registered under their own arity with typed tables (ctx_ok); column
+   references of the tree are hygienic (a name of the frame, or not shaped like prefix-temp-i: known finding D4)
+   and no constant is enum typed (no such Go value); and the recorded tables answer on every cell they are asked
+   for (ctx_total: no sub-tree of the denotation on the logical table is open). *)
+Theorem C10_no_panic_eval ut cx f dst e :
+  eval_premises_b cx f e = true -> exists g, eval ut cx f dst e = Ok g /\ wf_frame g = true.
+Proof. exact (no_panic_eval ut cx f dst e). Qed.
+Print Assumptions C10_no_panic_eval.
+
+Theorem C10_no_panic_eval_props ut cx f dst e t :
+  EvalFull.ctx_ok cx = true -> wf_frame f = true -> ferr f = false -> EvalFull.names_ok f = true ->
+  EvalFull.expr_ok f e = true ->
+  (N.of_nat (length (cols f) + EvalFull.temps_needed e) <= 10000)%N -> abs f = Ok t -> ctx_total cx t e = true ->
+  eval ut cx f dst e <> Panic /\ exists g, eval ut cx f dst e = Ok g /\ wf_frame g = true.
+Proof. exact (no_panic_eval_props ut cx f dst e t). Qed.
+Print Assumptions C10_no_panic_eval_props.
+
+(* examples: a nested tree over a derived frame satisfies the premises; an invalid tree (unknown function) too -
+   the result then has Err set; a context table that misses a cell IS a Panic of the model (premise needed) *)
+Definition C10_excx : ctx :=
+  [((TInt, true, [43%N]),
+    F2 TInt [(CInt 2, CInt 1, CInt 3); (CInt 3, CInt 1, CInt 4); (CInt 5, CInt 1, CInt 6);
+             (CInt 2, CInt 3, CInt 5); (CInt 3, CInt 4, CInt 7); (CInt 5, CInt 6, CInt 11)]%Z)].
+Definition C10_exe : expr := XExpr2 [43%N] (XCol [65%N]) (XColConst [43%N] [65%N] (CInt 1) false).
+Example C10_example_eval_premises : eval_premises_b C10_excx C10_exf C10_exe = true.
+Proof. vm_compute. reflexivity. Qed.
+Example C10_example_eval_result :
+  (do g <- eval [] C10_excx C10_exf [90%N] C10_exe; do t <- abs g; Ok (tnames t, map (fun r => nth 3 r (CInt 0)) (trows t)))
+  = Ok ([[65%N]; [83%N]; [69%N]; [90%N]], [CInt 5; CInt 7; CInt 11]%Z).
+Proof. vm_compute. reflexivity. Qed.
+Example C10_example_eval_invalid :
+  eval_premises_b C10_excx C10_exf (XExpr2 [45%N] (XCol [65%N]) (XCol [83%N])) = true
+  /\ option_map ferr (match eval [] C10_excx C10_exf [90%N] (XExpr2 [45%N] (XCol [65%N]) (XCol [83%N])) with
+                      | Ok g => Some g | _ => None end) = Some true.
+Proof. split; vm_compute; reflexivity. Qed.
+Example C10_example_eval_table_miss :
+  eval_premises_b (firstn 0 C10_excx ++ [((TInt, true, [43%N]), F2 TInt [(CInt 2, CInt 1, CInt 3)]%Z)]) C10_exf C10_exe = false
+  /\ eval [] [((TInt, true, [43%N]), F2 TInt [(CInt 2, CInt 1, CInt 3)]%Z)] C10_exf [90%N] C10_exe = Panic.
+Proof. split; vm_compute; reflexivity. Qed.
